@@ -9,6 +9,8 @@
 //!     out: `n=<len> nb=<neighbour lists in iterator order> pos=<position_of(i):index_of(position_of(i))…>`
 //! * `imb <k> <partition> <weights> <targets>`
 //!     out: `loads=[…] max=<max_imbalance> imb=<imbalance f64 bits> tgt=<imbalance_target>`
+//! * `lcsr …`, `lgrid2 …`, `lgrid3 …`, `limb …`: LARGE / CORNER stream, inputs described by a few
+//!     parameters (see the section below); outputs as `csr`, `grid2`, `imb`; pools 1, 2, 3, 16.
 //! A value is replaced by `panic(index|slice|assert)` when the call panics.
 //!
 //! Every topology call is made in rayon pools of 1, 4 and 16 threads; the three answers
@@ -59,11 +61,31 @@ fn guarded<T>(f: impl FnOnce() -> T) -> Res<T> {
     }
 }
 
-/// Run `f` in every pool; `Err(())` in `.1` if the pools disagree.
+/// Pools of the LARGE stream: 1, 2, 3 and 16 threads.
+const LPOOLS: [usize; 4] = [1, 2, 3, 16];
+
+fn lpools() -> &'static Vec<coupe::rayon::ThreadPool> {
+    static P: OnceLock<Vec<coupe::rayon::ThreadPool>> = OnceLock::new();
+    P.get_or_init(|| {
+        LPOOLS
+            .iter()
+            .map(|&t| coupe::rayon::ThreadPoolBuilder::new().num_threads(t).build().expect("pool"))
+            .collect()
+    })
+}
+
+/// Run `f` in every pool; `false` in `.1` if the pools disagree.
 fn in_pools<T: PartialEq + Clone + Send>(f: impl Fn() -> T + Sync + Send) -> (Res<T>, bool) {
+    in_pool_set(pools(), f)
+}
+
+fn in_pool_set<T: PartialEq + Clone + Send>(
+    set: &[coupe::rayon::ThreadPool],
+    f: impl Fn() -> T + Sync + Send,
+) -> (Res<T>, bool) {
     let mut first: Option<Res<T>> = None;
     let mut same = true;
-    for pool in pools() {
+    for pool in set {
         let r = guarded(|| pool.install(&f));
         match &first {
             None => first = Some(r),
@@ -551,10 +573,16 @@ fn run_imb(ctx: &mut Ctx, op: &str, t: &mut Toks) {
         ctx.record(op.to_string(), "bad-op".into(), false);
         return;
     };
-    let (loads, s1) = in_pools(|| coupe::imbalance::compute_parts_load(&p, k, ws.clone()));
-    let (mx, s2) = in_pools(|| coupe::imbalance::max_imbalance(k, &p, ws.clone()));
-    let (imb, s3) = in_pools(|| coupe::imbalance::imbalance(k, &p, ws.clone()).to_bits());
-    let (tgt, s4) = in_pools(|| coupe::imbalance::imbalance_target(&ts, &p, ws.clone()));
+    eval_imb(ctx, op, k, p, ws, ts, false);
+}
+
+/// Runs the four imbalance functions and their closed-form oracle (linear in the input).
+fn eval_imb(ctx: &mut Ctx, op: &str, k: usize, p: Vec<usize>, ws: Vec<i64>, ts: Vec<i64>, large: bool) {
+    let set = if large { lpools() } else { pools() };
+    let (loads, s1) = in_pool_set(set, || coupe::imbalance::compute_parts_load(&p, k, ws.clone()));
+    let (mx, s2) = in_pool_set(set, || coupe::imbalance::max_imbalance(k, &p, ws.clone()));
+    let (imb, s3) = in_pool_set(set, || coupe::imbalance::imbalance(k, &p, ws.clone()).to_bits());
+    let (tgt, s4) = in_pool_set(set, || coupe::imbalance::imbalance_target(&ts, &p, ws.clone()));
     let out = format!(
         "loads={} max={} imb={} tgt={}",
         match &loads {
@@ -576,7 +604,19 @@ fn run_imb(ctx: &mut Ctx, op: &str, t: &mut Toks) {
     let in_range = p.iter().all(|&x| x < k);
     let contract = in_range && p.len() == ws.len() && k > 0;
     let naive_loads = |kk: usize| -> Vec<i64> {
-        (0..kk).map(|j| p.iter().zip(&ws).filter(|(&q, _)| q == j).map(|(_, w)| *w).sum()).collect()
+        if p.len().saturating_mul(kk) <= 1 << 20 {
+            // the definition, part by part
+            (0..kk).map(|j| p.iter().zip(&ws).filter(|(&q, _)| q == j).map(|(_, w)| *w).sum()).collect()
+        } else {
+            // the same sums in one sequential pass (linear), checked against the grand total
+            let mut l = vec![0i128; kk];
+            for (&q, &w) in p.iter().zip(&ws) {
+                l[q] += w as i128;
+            }
+            let total: i128 = ws.iter().take(p.len()).map(|&w| w as i128).sum();
+            assert_eq!(l.iter().sum::<i128>(), total);
+            l.into_iter().map(|x| x as i64).collect()
+        }
     };
     if contract {
         ctx.count("imb:contract");
@@ -643,6 +683,469 @@ fn run_imb(ctx: &mut Ctx, op: &str, t: &mut Toks) {
     }
 }
 
+// ------------------------------------------------------------------ LARGE / CORNER stream
+//
+// Inputs with tens of thousands of vertices are described by a few parameters and expanded by the
+// same integer formulas here and in the Lean driver (`Driver/C16.lean`), so the op lines stay
+// short. All oracles below are linear in the number of stored entries.
+//
+// * `lcsr <n> <kind> <stride> <em> <off> <pm> <k> <wm> <seed>`   band matrix `i±1, i±stride`
+//     (kind 0 symmetric, 1 directed with dropped entries), edge-weight mode, indptr offset,
+//     partition mode, part count, vertex-weight mode.     out: as `csr`
+// * `lgrid2 <w> <h> <pm> <k> <wm> <seed>` / `lgrid3 <w> <h> <d> …`            out: as `grid2`
+// * `limb <n> <k> <pm> <wm> <seed>`                                           out: as `imb`
+
+fn mix(a: u64, b: u64, s: u64) -> u64 {
+    let x = a
+        .wrapping_mul(2654435761)
+        .wrapping_add(b.wrapping_mul(2246822519))
+        .wrapping_add(s.wrapping_mul(3266489917))
+        .wrapping_add(374761393)
+        & 0xffff_ffff;
+    let y = (x ^ (x >> 15)).wrapping_mul(2246822519) & 0xffff_ffff;
+    y ^ (y >> 13)
+}
+
+/// 0: ids ascending in `k` contiguous blocks, 1: blocks of 4096 cycling through the ids,
+/// 2: random, 3: stripes, else: blocks of 8192 with ascending ids.
+fn lpart(pm: usize, k: usize, n: usize, seed: u64, i: usize) -> usize {
+    match pm {
+        0 => ((i as u128 * k as u128) / n as u128) as usize,
+        1 => (i / 4096) % k,
+        2 => (mix(i as u64, 1, seed) % k as u64) as usize,
+        3 => i % k,
+        _ => (i / 8192).min(k - 1),
+    }
+}
+
+fn lweight(wm: usize, seed: u64, i: usize) -> i64 {
+    match wm {
+        0 => 1,
+        1 => 1 + (mix(i as u64, 2, seed) % 7) as i64,
+        _ => 1 + (mix(i as u64, 3, seed) % 1_048_576) as i64,
+    }
+}
+
+fn lrow(gk: usize, s: usize, em: usize, n: usize, seed: u64, i: usize) -> Vec<(usize, i64)> {
+    let m: u64 = if em == 0 { 9 } else { 1 << 31 };
+    let mut cand = vec![];
+    if i >= s {
+        cand.push(i - s);
+    }
+    if i >= 1 {
+        cand.push(i - 1);
+    }
+    if i + 1 < n {
+        cand.push(i + 1);
+    }
+    if i + s < n {
+        cand.push(i + s);
+    }
+    if gk == 0 {
+        cand.into_iter().map(|j| (j, 1 + (mix(i.min(j) as u64, i.max(j) as u64, seed) % m) as i64)).collect()
+    } else {
+        cand.into_iter()
+            .filter(|&j| mix(i as u64, j as u64, seed + 7) % 4 != 0)
+            .map(|j| (j, 1 + (mix(i as u64, j as u64, seed) % m) as i64))
+            .collect()
+    }
+}
+
+fn limb_weight(wm: usize, n: usize, seed: u64, i: usize) -> i64 {
+    match wm {
+        0 => 1,
+        1 => (mix(i as u64, 2, seed) % 100) as i64,
+        2 => (1u64 << 30) as i64 + (mix(i as u64, 3, seed) % (1 << 31)) as i64,
+        _ => ((1u64 << 61) / n as u64) as i64 - (mix(i as u64, 4, seed) % 1000) as i64,
+    }
+}
+
+fn size_class(n: usize) -> &'static str {
+    match n {
+        0..=4096 => "<=4096",
+        4097..=8192 => "4097..8192",
+        8193..=16384 => "8193..16384",
+        16385..=65536 => "16385..65536",
+        65537..=131072 => "65537..131072",
+        _ => ">131072",
+    }
+}
+
+/// Edge cut by the definition, one pass over the stored entries: an entry `(i, j)` below the
+/// diagonal whose ends lie in different parts contributes its weight. For a symmetric matrix the
+/// sum over *all* entries in different parts must be exactly twice that.
+fn linear_edge_cut(rows: &[Vec<(usize, i64)>], p: &[usize], symmetric: bool) -> Result<i64, String> {
+    let mut lower = 0i128;
+    let mut all = 0i128;
+    for (i, r) in rows.iter().enumerate() {
+        for &(j, w) in r {
+            if p[i] != p[j] {
+                all += w as i128;
+                if j < i {
+                    lower += w as i128;
+                }
+            }
+        }
+    }
+    if symmetric && all != 2 * lower {
+        return Err(format!("oracle self-check: all {} != 2 x lower {}", all, lower));
+    }
+    Ok(lower as i64)
+}
+
+/// λ-1 cut by the definition: per vertex, the parts of the neighbours other than its own are
+/// sorted and counted (no hashing).
+fn linear_lambda(rows: &[Vec<(usize, i64)>], p: &[usize], ws: &[i64]) -> i64 {
+    let mut s = 0i128;
+    let mut buf: Vec<usize> = vec![];
+    for v in 0..rows.len().min(ws.len()) {
+        buf.clear();
+        buf.extend(rows[v].iter().map(|e| p[e.0]).filter(|&q| q != p[v]));
+        buf.sort_unstable();
+        buf.dedup();
+        s += ws[v] as i128 * buf.len() as i128;
+    }
+    s as i64
+}
+
+fn parse_nats(t: &mut Toks, k: usize) -> Option<Vec<usize>> {
+    let mut v = Vec::with_capacity(k);
+    for _ in 0..k {
+        v.push(t.one::<usize>()?);
+    }
+    if t.done() { Some(v) } else { None }
+}
+
+fn run_lcsr(ctx: &mut Ctx, op: &str, t: &mut Toks) {
+    let Some(a) = parse_nats(t, 9) else {
+        ctx.record(op.to_string(), "bad-op".into(), false);
+        return;
+    };
+    let (n, gk, s, em, off, pm, k, wm, seed) = (a[0], a[1], a[2], a[3], a[4], a[5], a[6], a[7], a[8] as u64);
+    if s < 2 || k == 0 || n == 0 || n > 2_000_000 {
+        ctx.record(op.to_string(), "bad-op".into(), false);
+        return;
+    }
+    let rows: Vec<Vec<(usize, i64)>> = (0..n).map(|i| lrow(gk, s, em, n, seed, i)).collect();
+    let p: Vec<usize> = (0..n).map(|i| lpart(pm, k, n, seed, i)).collect();
+    let ws: Vec<i64> = (0..n).map(|i| lweight(wm, seed, i)).collect();
+    let mut indptr = vec![off];
+    let mut indices = vec![];
+    let mut data = vec![];
+    for r in &rows {
+        for &(u, w) in r {
+            indices.push(u);
+            data.push(w);
+        }
+        indptr.push(off + indices.len());
+    }
+    let mut v = Verdicts(vec![]);
+    let view: View = match CsMatView::try_new((n, n), &indptr[..], &indices[..], &data[..]) {
+        Ok(x) => x,
+        Err(_) => {
+            let idx = ctx.record(op.to_string(), "invalid-matrix".into(), false);
+            ctx.fail(idx, "harness-bug", "the large generator built an invalid matrix".into());
+            return;
+        }
+    };
+    let set = lpools();
+    let (eg, s1) = in_pool_set(set, || <&View as Topology<i64>>::edge_cut(&&view, &p));
+    let (es, s2) = in_pool_set(set, || <View as Topology<i64>>::edge_cut(&view, &p));
+    let (lg, s3) = in_pool_set(set, || <&View as Topology<i64>>::lambda_cut(&&view, &p, ws.clone()));
+    let (ls, s4) = in_pool_set(set, || <View as Topology<i64>>::lambda_cut(&view, &p, ws.clone()));
+    let out = format!("eg={} es={} lg={} ls={}", show(&eg), show(&es), show(&lg), show(&ls));
+    if !(s1 && s2 && s3 && s4) {
+        v.add("pool-dependent", "the answer depends on the rayon pool size".into());
+    }
+    // reuse: the same view answers for another partition in between, then again for the first
+    let p2: Vec<usize> = p.iter().rev().cloned().collect();
+    let again = guarded(|| {
+        let _ = <View as Topology<i64>>::edge_cut(&view, &p2);
+        let _ = <View as Topology<i64>>::lambda_cut(&view, &p2, ws.clone());
+        (<View as Topology<i64>>::edge_cut(&view, &p), <View as Topology<i64>>::lambda_cut(&view, &p, ws.clone()))
+    });
+    ctx.count("reuse");
+    if let (Ok((e2, l2)), Ok(e1), Ok(l1)) = (&again, &es, &ls) {
+        if e2 != e1 || l2 != l1 {
+            v.add("history-dependent", format!("second call on the same view: {} / {} after {} / {}", e2, l2, e1, l1));
+        }
+    }
+    match linear_edge_cut(&rows, &p, gk == 0) {
+        Err(m) => v.add("oracle-self-check", m),
+        Ok(want_e) => {
+            for (name, got) in [("generic-edge-cut", &eg), ("sprs-edge-cut", &es)] {
+                if *got != Ok(want_e) {
+                    let sig = if off != 0 && got.is_err() && name.starts_with("sprs") { "sprs-offset-indptr-panic" } else { name };
+                    v.add(sig, format!("{} {} but the definition gives {}", name, show(got), want_e));
+                }
+            }
+        }
+    }
+    let want_l = linear_lambda(&rows, &p, &ws);
+    for (name, got) in [("generic-lambda-cut", &lg), ("sprs-lambda-cut", &ls)] {
+        if *got != Ok(want_l) {
+            let sig = if off != 0 && got.is_err() && name.starts_with("sprs") { "sprs-offset-indptr-panic" } else { name };
+            v.add(sig, format!("{} {} but the definition gives {}", name, show(got), want_l));
+        }
+    }
+    ctx.count(&format!("large:csr:{}", size_class(n)));
+    let idx = ctx.record(op.to_string(), out, n >= 2 && k >= 2);
+    for (sig, what) in v.0 {
+        ctx.fail(idx, sig, what);
+    }
+}
+
+fn run_lgrid(ctx: &mut Ctx, op: &str, t: &mut Toks, dim: usize) {
+    let Some(a) = parse_nats(t, if dim == 2 { 6 } else { 7 }) else {
+        ctx.record(op.to_string(), "bad-op".into(), false);
+        return;
+    };
+    let (w, h, d) = if dim == 2 { (a[0], a[1], 1) } else { (a[0], a[1], a[2]) };
+    let o = dim; // offset of the remaining parameters
+    let (pm, k, wm, seed) = (a[o], a[o + 1], a[o + 2], a[o + 3] as u64);
+    if w == 0 || h == 0 || d == 0 || k == 0 || w.saturating_mul(h).saturating_mul(d) > 2_000_000 {
+        ctx.record(op.to_string(), "bad-op".into(), false);
+        return;
+    }
+    let n = w * h * d;
+    let g = if dim == 2 { G::D2(coupe::Grid::new_2d(nz(w), nz(h))) } else { G::D3(coupe::Grid::new_3d(nz(w), nz(h), nz(d))) };
+    let p: Vec<usize> = (0..n).map(|i| lpart(pm, k, n, seed, i)).collect();
+    let ws: Vec<i64> = (0..n).map(|i| lweight(wm, seed, i)).collect();
+    // the lattice by enumeration of the cells (x fastest): neighbours in increasing order
+    let mut rows: Vec<Vec<(usize, i64)>> = Vec::with_capacity(n);
+    let mut i = 0usize;
+    for z in 0..d {
+        for y in 0..h {
+            for x in 0..w {
+                let mut r = Vec::with_capacity(6);
+                if z > 0 {
+                    r.push((i - w * h, 1));
+                }
+                if y > 0 {
+                    r.push((i - w, 1));
+                }
+                if x > 0 {
+                    r.push((i - 1, 1));
+                }
+                if x + 1 < w {
+                    r.push((i + 1, 1));
+                }
+                if y + 1 < h {
+                    r.push((i + w, 1));
+                }
+                if z + 1 < d {
+                    r.push((i + w * h, 1));
+                }
+                rows.push(r);
+                i += 1;
+            }
+        }
+    }
+    let mut indptr = vec![0usize];
+    let mut indices = vec![];
+    for r in &rows {
+        indices.extend(r.iter().map(|e| e.0));
+        indptr.push(indices.len());
+    }
+    let data = vec![1i64; indices.len()];
+    let mut v = Verdicts(vec![]);
+    let view: View = match CsMatView::try_new((n, n), &indptr[..], &indices[..], &data[..]) {
+        Ok(x) => x,
+        Err(_) => {
+            let idx = ctx.record(op.to_string(), "invalid-matrix".into(), false);
+            ctx.fail(idx, "harness-bug", "the large generator built an invalid lattice".into());
+            return;
+        }
+    };
+    let set = lpools();
+    let (eg, s1) = in_pool_set(set, || g.edge_cut(&p));
+    let (lg, s2) = in_pool_set(set, || g.lambda_cut(&p, ws.clone()));
+    let (ce, s3) = in_pool_set(set, || <View as Topology<i64>>::edge_cut(&view, &p));
+    let (cl, s4) = in_pool_set(set, || <View as Topology<i64>>::lambda_cut(&view, &p, ws.clone()));
+    let (cge, s5) = in_pool_set(set, || <&View as Topology<i64>>::edge_cut(&&view, &p));
+    let (cgl, s6) = in_pool_set(set, || <&View as Topology<i64>>::lambda_cut(&&view, &p, ws.clone()));
+    let out = format!("eg={} lg={} ce={} cl={}", show(&eg), show(&lg), show(&ce), show(&cl));
+    if !(s1 && s2 && s3 && s4 && s5 && s6) {
+        v.add("pool-dependent", "the answer depends on the rayon pool size".into());
+    }
+    if g.len() != n {
+        v.add("grid-len", format!("Grid len {} but {} cells", g.len(), n));
+    }
+    // the definition, edge by edge: every +x, +y, +z lattice edge whose ends differ counts one
+    let mut want_e = 0i64;
+    let mut i = 0usize;
+    for z in 0..d {
+        for y in 0..h {
+            for x in 0..w {
+                if x + 1 < w && p[i] != p[i + 1] {
+                    want_e += 1;
+                }
+                if y + 1 < h && p[i] != p[i + w] {
+                    want_e += 1;
+                }
+                if z + 1 < d && p[i] != p[i + w * h] {
+                    want_e += 1;
+                }
+                i += 1;
+            }
+        }
+    }
+    match linear_edge_cut(&rows, &p, true) {
+        Ok(e) if e == want_e => {}
+        other => v.add("oracle-self-check", format!("edge enumeration {} against entry enumeration {:?}", want_e, other)),
+    }
+    let want_l = linear_lambda(&rows, &p, &ws);
+    for (name, got, want) in [
+        ("grid-edge-cut", &eg, want_e),
+        ("grid-lambda-cut", &lg, want_l),
+        ("lattice-sprs-edge-cut", &ce, want_e),
+        ("lattice-sprs-lambda-cut", &cl, want_l),
+        ("lattice-generic-edge-cut", &cge, want_e),
+        ("lattice-generic-lambda-cut", &cgl, want_l),
+    ] {
+        if *got != Ok(want) {
+            v.add(name, format!("{} but the definition gives {}", show(got), want));
+        }
+    }
+    // the iterator itself at a sample of cells (all cells when small): the set must be the lattice row
+    let step = (n / 4099).max(1);
+    let mut c = 0;
+    while c < n {
+        let mut got: Vec<usize> = g.neighbors(c).iter().map(|e| e.0).collect();
+        got.sort_unstable();
+        let want: Vec<usize> = rows[c].iter().map(|e| e.0).collect();
+        if got != want {
+            v.add("grid-neighbours", format!("cell {}: neighbours {:?}, lattice {:?}", c, got, want));
+            break;
+        }
+        c += step;
+    }
+    ctx.count(&format!("large:grid{}d:{}", dim, size_class(n)));
+    let idx = ctx.record(op.to_string(), out, n >= 2 && k >= 2);
+    for (sig, what) in v.0 {
+        ctx.fail(idx, sig, what);
+    }
+}
+
+fn run_limb(ctx: &mut Ctx, op: &str, t: &mut Toks) {
+    let Some(a) = parse_nats(t, 5) else {
+        ctx.record(op.to_string(), "bad-op".into(), false);
+        return;
+    };
+    let (n, k, pm, wm, seed) = (a[0], a[1], a[2], a[3], a[4] as u64);
+    if k == 0 || n == 0 || n > 2_000_000 || k > 100_000 {
+        ctx.record(op.to_string(), "bad-op".into(), false);
+        return;
+    }
+    let p: Vec<usize> = (0..n).map(|i| lpart(pm, k, n, seed, i)).collect();
+    let ws: Vec<i64> = (0..n).map(|i| limb_weight(wm, n, seed, i)).collect();
+    let ts: Vec<i64> = (0..k).map(|j| (mix(j as u64, 5, seed) % 1000) as i64).collect();
+    let total: i128 = ws.iter().map(|&x| x as i128).sum();
+    ctx.count(&format!("large:imb:{}", size_class(n)));
+    ctx.count(if total % k as i128 == 0 { "large:imb:total_divisible" } else { "large:imb:total_not_divisible" });
+    eval_imb(ctx, op, k, p, ws, ts, true);
+}
+
+fn gen_large(ctx: &mut Ctx) {
+    let quick = ctx.quick();
+    let seed = |ctx: &mut Ctx| ctx.rng.below(1 << 20);
+    // --- CSR: (n, kind, stride, edge mode, offset, partition mode, parts, weight mode)
+    let mut csr: Vec<[usize; 8]> = vec![
+        [8193, 0, 4096, 0, 0, 0, 2, 1],
+        [16385 + 37, 0, 8192, 0, 0, 0, 64, 1],
+        [20001, 1, 4096, 1, 0, 1, 257, 2],
+        [65537 + 11, 0, 8192, 1, 3, 0, 257, 1],
+        [70001, 1, 97, 0, 0, 2, 64, 0],
+        [70001, 0, 2, 0, 0, 3, 70001, 1], // every vertex its own part: more than 65 536 ids
+    ];
+    if !quick {
+        csr.extend([
+            [4097, 0, 4096, 0, 0, 4, 2, 1],
+            [8193, 1, 8192, 0, 5, 0, 3, 1],
+            [16385, 0, 4097, 1, 0, 4, 255, 2],
+            [65536, 0, 8192, 0, 0, 0, 256, 1], // block-aligned on purpose
+            [65537, 1, 65536, 0, 0, 0, 2, 0],
+            [131077, 0, 8192, 0, 0, 0, 257, 1],
+            [131077, 1, 16384, 1, 2, 2, 64, 2],
+            [140003, 0, 4096, 0, 0, 1, 128, 1],
+            [140003, 0, 3, 1, 0, 4, 65, 0],
+        ]);
+    }
+    for c in csr {
+        let s = seed(ctx);
+        run_op(ctx, &format!("lcsr {} {} {} {} {} {} {} {} {}", c[0], c[1], c[2], c[3], c[4], c[5], c[6], c[7], s));
+    }
+    // --- grids: rows of 4096 / 8192 nodes, sizes off the powers of two, unequal 3-D sides
+    let mut g2: Vec<[usize; 5]> = vec![[4097, 5, 0, 2, 1], [8192, 3, 0, 64, 1], [8193, 9, 4, 257, 0], [131, 157, 2, 64, 2]];
+    let mut g3: Vec<[usize; 6]> = vec![[17, 29, 43, 0, 64, 1], [37, 41, 47, 0, 257, 1], [4096, 3, 2, 1, 2, 0]];
+    if !quick {
+        g2.extend([[4096, 17, 0, 256, 1], [16385, 9, 0, 2, 1], [70001, 2, 4, 63, 1], [3, 43691, 0, 257, 2], [383, 367, 1, 128, 0]]);
+        g3.extend([[53, 47, 59, 0, 257, 1], [8193, 2, 5, 0, 64, 1], [2, 8193, 3, 4, 65, 0], [3, 5, 8737, 0, 255, 2], [61, 31, 73, 2, 2, 1]]);
+    }
+    for c in g2 {
+        let s = seed(ctx);
+        run_op(ctx, &format!("lgrid2 {} {} {} {} {} {}", c[0], c[1], c[2], c[3], c[4], s));
+    }
+    for c in g3 {
+        let s = seed(ctx);
+        run_op(ctx, &format!("lgrid3 {} {} {} {} {} {} {}", c[0], c[1], c[2], c[3], c[4], c[5], s));
+    }
+    // --- imbalance: (n, parts, partition mode, weight mode); sorted ids (modes 0, 4) and random (2)
+    let mut imb: Vec<[usize; 4]> = vec![
+        [8193, 2, 0, 1],
+        [16385 + 37, 64, 0, 2],
+        [20001, 257, 2, 1],
+        [65537 + 11, 257, 0, 2],
+        [70001, 64, 2, 3],
+        [70001, 3, 4, 1],
+    ];
+    if !quick {
+        imb.extend([
+            [8193, 257, 1, 0],
+            [16385, 63, 0, 3],
+            [65536, 256, 0, 2],
+            [65537, 65, 3, 1],
+            [131077, 257, 0, 2],
+            [131077, 2, 2, 3],
+            [140003, 64, 0, 1],
+            [140003, 128, 2, 2],
+            [140003, 4099, 2, 1],
+            [100003, 255, 4, 2],
+        ]);
+    }
+    for c in imb {
+        let s = seed(ctx);
+        run_op(ctx, &format!("limb {} {} {} {} {}", c[0], c[1], c[2], c[3], s));
+    }
+    // --- parameter corners at moderate sizes (through the same descriptors)
+    for k in [63usize, 64, 65, 128, 255, 256, 257, 4099] {
+        ctx.count(&format!("corner:parts={}", k));
+        let s = seed(ctx);
+        run_op(ctx, &format!("limb {} {} {} {} {}", 5003, k, 2, 1, s));
+        let s = seed(ctx);
+        run_op(ctx, &format!("lcsr {} 0 {} 0 0 {} {} 1 {}", 4999, 70, if k % 2 == 0 { 0 } else { 2 }, k, s));
+        let s = seed(ctx);
+        run_op(ctx, &format!("lgrid2 {} {} 2 {} 1 {}", 71, 67, k, s));
+    }
+    for n in [1usize, 2, 3] {
+        ctx.count("corner:tiny");
+        let s = seed(ctx);
+        run_op(ctx, &format!("lcsr {} 0 2 0 0 3 2 1 {}", n, s));
+        run_op(ctx, &format!("limb {} 2 3 1 {}", n, s));
+        run_op(ctx, &format!("limb {} 3 2 3 {}", n, s));
+    }
+    // weights near the top of the i64 range with totals that still fit (loads, max_imbalance exact)
+    for (n, k) in [(2usize, 2usize), (3, 2), (1021, 64), (8193, 257)] {
+        ctx.count("corner:weights~2^61/n");
+        let s = seed(ctx);
+        run_op(ctx, &format!("limb {} {} 2 3 {}", n, k, s));
+    }
+    ctx.notes.push(format!(
+        "large/corner stream: descriptor ops (lcsr, lgrid2, lgrid3, limb) in pools {:?}; linear oracles; compared exactly with the model (array-backed evaluator proved equal to it)",
+        LPOOLS
+    ));
+}
+
 pub fn run_op(ctx: &mut Ctx, op: &str) {
     if ctx.hang_limit_reached() {
         return;
@@ -655,6 +1158,10 @@ pub fn run_op(ctx: &mut Ctx, op: &str) {
         Some("nbrs2") => run_nbrs(ctx, op, &mut t, 2),
         Some("nbrs3") => run_nbrs(ctx, op, &mut t, 3),
         Some("imb") => run_imb(ctx, op, &mut t),
+        Some("lcsr") => run_lcsr(ctx, op, &mut t),
+        Some("lgrid2") => run_lgrid(ctx, op, &mut t, 2),
+        Some("lgrid3") => run_lgrid(ctx, op, &mut t, 3),
+        Some("limb") => run_limb(ctx, op, &mut t),
         _ => {
             ctx.record(op.to_string(), "bad-op".into(), false);
         }
@@ -1037,7 +1544,9 @@ pub fn generate(ctx: &mut Ctx) {
         }
     }
     ctx.notes.push(format!("exhaustive: all 2-colourings (cell 0 fixed) of all 2-D and 3-D (depth >= 2) grids with <= {} cells: {} cases", cells, total));
-    // 3. random streams
+    // 3. large sizes and parameter corners
+    gen_large(ctx);
+    // 4. random streams
     for _ in 0..ctx.budget(2500, 60000) {
         gen_csr(ctx);
     }
